@@ -805,6 +805,54 @@ def stream(ctx, n_calls, n_updates):
     lean_optdag(ctx, items)
 
 
+def adapter_checks_preserved(ctx):
+    """The run-time checks that tracing inserts after a user function (isinstance / shape asserts of the adapters) are part of
+    what the graph computes: for inputs on which they fail, the optimised graph must fail as well.  Adapted functions that
+    misbehave are called through descriptions of every alignment (inputs already laid out like the output, transposed,
+    reshaped) with optimisation switched off (tracer.optimize replaced by the identity) and on; the outcomes must agree."""
+    import einx
+    import einx._src.tracer as T
+    x = np.arange(6.).reshape(2, 3)
+    y = np.arange(6.).reshape(2, 3) + 10
+    bad = {"wrong_shape": lambda a, b: (a + b)[:1], "returns_list": lambda a, b: (a + b).tolist(), "returns_scalar": lambda a, b: 1.5,
+           "well_behaved": lambda a, b: a + b}
+    bad_r = {"wrong_shape": lambda t, axis=None: np.sum(t, axis=axis)[..., None], "returns_list": lambda t, axis=None: np.sum(t, axis=axis).tolist(),
+             "well_behaved": lambda t, axis=None: np.sum(t, axis=axis)}
+    cases = []
+    for name, f in bad.items():
+        for desc, args in (("a b, a b -> a b", (x, y)), ("a b, a b", (x, y)), ("a b, b a -> a b", (x, y.T.copy())), ("a, a -> a", (x[0], y[0])), ("(a b), a b -> a b", (x.reshape(6), y))):
+            cases.append(("elementwise", name, f, desc, args))
+    for name, f in bad_r.items():
+        for desc, args in (("a [b]", (x,)), ("[a] b -> b", (x,)), ("a b -> a b", (x,))):
+            cases.append(("reduce", name, f, desc, args))
+
+    def outcome(kind, f, desc, args):
+        try:
+            op = (einx.numpy.adapt_numpylike_elementwise if kind == "elementwise" else einx.numpy.adapt_numpylike_reduce)(f)
+            r = op(desc, *[np.array(a) for a in args])
+            return ("value", np.asarray(r).shape, np.asarray(r, dtype=np.float64).round(6).tolist())
+        except Exception as e:
+            return ("raises",)
+    orig = T.optimize
+    for kind, name, f, desc, args in cases:
+        f_off = (lambda *a, _f=f, **k: _f(*a, **k))      # distinct function objects: separate adapters and caches
+        f_on = (lambda *a, _f=f, **k: _f(*a, **k))
+        T.optimize = lambda graph, *a, **k: graph
+        try:
+            off = outcome(kind, f_off, desc, args)
+        finally:
+            T.optimize = orig
+        on = outcome(kind, f_on, desc, args)
+        ctx.count("adapter-checks:" + ("agree" if on == off else "DIFFER"))
+        ctx.case(f"adapter-checks:{kind}:{name}:{desc}", True)
+        if on != off:
+            ctx.violation(f"adapter-checks: adapt_numpylike_{kind}({name}) {desc!r} shapes={[list(np.shape(a)) for a in args]}: unoptimised {off[0]}, optimised {on[0]}",
+                          {"kind": "the optimised graph does not behave like the traced graph (run-time checks after a user function)", "adapter": kind,
+                           "function": name, "description": desc, "unoptimised": list(off[:2]), "optimised": list(on[:2]),
+                           "how": "tracer.optimize replaced by the identity vs. the real optimiser, same call"})
+            return
+
+
 def synthetic(ctx, specs, label):
     patterns = numpy_patterns()
     items = []
@@ -895,6 +943,7 @@ def run(ctx):
     if not quick and len(ctx.violations) < 5:
         synthetic(ctx, exhaustive_specs(rng), "exhaustive")
     if len(ctx.violations) < 5:
+        adapter_checks_preserved(ctx)
         stream(ctx, n_calls, n_updates)
     ctx.extra["traces_validated_against_impl"] = ctx.extra.get("graph_pairs_proved_equal", 0)
 
